@@ -78,9 +78,10 @@ func (ex *Exec) symArg(name string, t types.Type, pi *ParamInfo) Value {
 }
 
 type VerifyOpts struct {
-	TimeoutMs int
-	Workers   int
-	Verbose   bool
+	TimeoutMs    int
+	Workers      int
+	Verbose      bool
+	OptionalOnly bool // only decide invariant / frame candidates (write-set computation)
 }
 
 func (P *Program) newExecFromInit(cfg *RunCfg) *Exec {
@@ -114,6 +115,20 @@ func (P *Program) VerifyFunction(fn *ssa.Function, cfg *RunCfg, opts VerifyOpts)
 			res.Params = append(res.Params, pi)
 		}
 		nModBefore := countMod(cfg)
+		if cfg.fnScope != "" {
+			ex.loops = append(ex.loops, &loopAct{key: cfg.fnScope, water: ex.ctr()})
+			for i, p := range fn.Params {
+				if pv, ok := args[i].(PtrV); ok {
+					ex.scopeParams = append(ex.scopeParams, scopeParam{ref: pv.Ref, prefix: ex.allocBase(pv.T)})
+				} else {
+					ex.scopeParams = append(ex.scopeParams, scopeParam{})
+				}
+				_ = p
+			}
+		}
+		if target := P.contractTarget(fn); target != "" {
+			ex.modes = append(ex.modes, &contractMode{target: target, use: false})
+		}
 		ex.callFn(fn, args, True())
 		if countMod(cfg) != nModBefore {
 			continue // loop write-sets grew: rerun with the larger havoc
@@ -149,6 +164,9 @@ func (P *Program) VerifyFunction(fn *ssa.Function, cfg *RunCfg, opts VerifyOpts)
 	}
 	res.ex = ex
 	res.Unsupported = ex.unsup
+	if opts.OptionalOnly {
+		return res
+	}
 	var final []*Obligation
 	for _, o := range ex.obls {
 		if !o.Optional {
@@ -232,4 +250,14 @@ func (r *FnResult) Print(verbose bool) {
 	if verbose {
 		fmt.Printf("   kept invariants: %v\n   dropped: %v\n", r.Kept, r.Dropped)
 	}
+}
+
+// contractTarget: fn is the contract wrapper of which function ("" if none).
+func (P *Program) contractTarget(fn *ssa.Function) string {
+	for t, sm := range P.summaries {
+		if sm.Wrapper == fn {
+			return t
+		}
+	}
+	return ""
 }
